@@ -5,35 +5,43 @@ EXTENDS Naturals, Integers, Sequences, FiniteSets, TLC, Json, IOUtils
 
 Core == INSTANCE MonCore
 Work == INSTANCE MonWork
+Sig == INSTANCE MonSig
 
-VARIABLES l, mon, monw, sid
-tvars == <<l, mon, monw, sid>>
+VARIABLES l, mon, monw, mons, sid
+tvars == <<l, mon, monw, mons, sid>>
 
 Log == ndJsonDeserialize(IOEnv.TRACE)
 N == Len(Log)
 
-TInit == l = 1 /\ mon = Core!MonInit /\ monw = Work!WInit /\ sid = "none"
+TInit == l = 1 /\ mon = Core!MonInit /\ monw = Work!WInit /\ mons = Sig!SInit /\ sid = "none"
 
 TNext ==
   /\ l <= N
   /\ l' = l + 1
   /\ LET e == Log[l] IN
      IF e.e = "Reset"
-     THEN mon' = Core!MonInit /\ monw' = Work!WInit /\ sid' = e.id
+     THEN mon' = Core!MonInit /\ monw' = Work!WInit /\ mons' = Sig!SInit /\ sid' = e.id
      ELSE /\ mon' = Core!MonStep(mon, e)
           /\ monw' = Work!WStep(monw, e)
+          /\ mons' = Sig!SStep(mons, e)
           /\ sid' = sid
+          /\ LET nv == (mon'.viols \cup monw'.viols \cup mons'.viols) \ (mon.viols \cup monw.viols \cup mons.viols)
+             IN nv # {} => PrintT("VIOLAT " \o ToJson([id |-> sid, line |-> l, rules |-> nv]))
           /\ (e.e = "End") =>
-               LET (* C13: after a pool was released and everything it started is
-                      gone, its references on the owner's loop are dropped: the
-                      loop must not sit in iv_main with nothing registered *)
-                   held == e.why = "hang" /\ mon'.opaque /\ mon'.inMain /\ Core!UserObjs(mon') = 0
-                           /\ Work!AllReleased(monw') /\ (\E p \in 1..8 : monw'.pool[p].put)
-                   x == IF held THEN {"C13:owner-held"} ELSE {}
-                   sx == IF mon'.opaque /\ (\E p \in 1..8 : monw'.pool[p].put) THEN {"C13:owner-held"} ELSE {}
+               LET (* C13 / C19: once a pool was released (a popen request closed)
+                      and everything it started is gone, its references on the
+                      loop are dropped: the loop must not sit in iv_main for
+                      good with nothing registered *)
+                   idle == e.why = "hang" /\ mon'.opaque /\ mon'.inMain /\ Core!UserObjs(mon') = 0
+                           /\ Work!AllReleased(monw') /\ Sig!AllReleased(mons')
+                   anyPut == \E p \in 1..8 : monw'.pool[p].put
+                   anyClosed == \E p \in 1..8 : mons'.pop[p].closed
+                   x == (IF idle /\ anyPut THEN {"C13:owner-held"} ELSE {}) \cup
+                        (IF idle /\ anyClosed THEN {"C19:leak"} ELSE {})
+                   sx == (IF anyPut THEN {"C13:owner-held"} ELSE {}) \cup (IF anyClosed THEN {"C19:leak"} ELSE {})
                IN PrintT("VERDICT " \o ToJson([id |-> sid, why |-> e.why,
-                                             viols |-> mon'.viols \cup monw'.viols \cup x,
-                                             seen |-> mon'.seen \cup monw'.seen \cup sx]))
+                                             viols |-> mon'.viols \cup monw'.viols \cup mons'.viols \cup x,
+                                             seen |-> mon'.seen \cup monw'.seen \cup mons'.seen \cup sx]))
 
 TSpec == TInit /\ [][TNext]_tvars
 =============================================================================
